@@ -155,3 +155,51 @@ def wrapper_flush_rules(rep, rule, prog, f, name, inner_rx):
                 if o[0] == "agg" and o[1][2]["a"].get("def", "").endswith("PutMode") and o[1][2]["a"].get("v") == "Update":
                     upd = True
     rep.ob(rule, "conditional-manifest-put|%s" % name, upd, "the manifest commit is a conditional put (PutMode::Update(expected version))", f.file + ":%d" % f.line)
+
+
+# ---------------------------------------------------------------- optimistic retirement of dirty marks
+def _cmp_guards(f, cur_fields):
+    """Comparisons one side of which reads a `current version` field: [(op, block, false_target, true_target, site_line)]."""
+    out = []
+    for b in f.live_blocks():
+        for st in f.stmts(b):
+            if st[0] != "A" or st[2]["k"] != "bin" or st[2]["op"] not in ("Eq", "Ne", "Lt", "Le", "Gt", "Ge"):
+                continue
+            fa = f.slice_fields(st[2]["a"])
+            fb = f.slice_fields(st[2]["b"])
+            if not (cur_fields <= fa or cur_fields <= fb):
+                continue
+            # the switch that tests this comparison (same block, or through copies in the following blocks)
+            der = {st[1]["l"]}
+            for b2 in sorted(f.live_blocks()):
+                for s2 in f.stmts(b2):
+                    if s2[0] == "A" and s2[2]["k"] == "use":
+                        p = core.op_place(s2[2]["o"])
+                        if p is not None and p.l in der and not p.p:
+                            der.add(s2[1]["l"])
+                t = f.term(b2)
+                if t["k"] == "switch" and core.op_place(t["o"]) is not None and core.op_place(t["o"]).l in der and f.dominates(b, b2):
+                    vals = dict(t["v"])
+                    if "0" in vals:
+                        out.append((st[2]["op"], b2, vals["0"], t["else"], st[3] if len(st) > 3 else f.line))
+    return out
+
+
+def retire_under_equality(rep, rule, f, name, retire_blocks, cur_fields, what):
+    """A dirty mark captured at version v may be retired only if the version is *still equal* to v: any mutation that
+    crossed the I/O window bumped it, and its change is in memory but not in the bytes just written.  `>=`/`<=` are always
+    true for a monotone counter and retire the mark of a node/bucket whose newer state was never persisted."""
+    guards = _cmp_guards(f, cur_fields)
+    bad = []
+    for rb in retire_blocks:
+        ok = False
+        for (op, sb, ft, tt, ln) in guards:
+            eq_edge = tt if op == "Eq" else (ft if op == "Ne" else None)
+            if eq_edge is not None and f.dominates(eq_edge, rb) and not f.dominates(eq_edge, sb):
+                ok = True
+        if not ok:
+            bad.append(rb)
+    ops = sorted({g[0] for g in guards})
+    rep.ob(rule, "retire-only-if-version-unchanged|%s" % name, bool(retire_blocks) and not bad,
+           "%s must lie on the equal edge of a comparison of the current version with the snapshot's (found comparisons: %s)" % (what, ops or "none"),
+           "%s:%d" % (f.file, guards[0][4] if guards else f.line))
